@@ -102,6 +102,26 @@ pub fn gadget_farm(r: &mut Rng) -> Graph {
     g.set_inputs(ins); g.set_outputs(outs);
     g
 }
+/// two phase gadgets on the same 0-2 targets with every pair of HUB phases in {0, pi, pi/2} (the farm above only builds hubs with phase 0):
+/// the fusion rule is sound only for phase-free hubs
+pub fn gadget_pairs() -> Vec<Graph> {
+    let mut out = vec![];
+    let hp = [Rational64::new(0, 1), Rational64::new(1, 1), Rational64::new(1, 2)];
+    for nt in 0..=2usize { for &h0 in &hp { for &h1 in &hp {
+        let mut g = Graph::new();
+        let (mut ins, mut outs) = (vec![], vec![]);
+        let targets: Vec<V> = (0..nt).map(|k| { let t = g.add_vertex(VType::Z); let b = g.add_vertex(VType::B); g.add_edge_with_type(t, b, EType::N); if k % 2 == 0 { ins.push(b) } else { outs.push(b) } t }).collect();
+        for (hub_phase, leaf_phase) in [(h0, Rational64::new(1, 4)), (h1, Rational64::new(1, 2))] {
+            let hub = g.add_vertex_with_phase(VType::Z, hub_phase);
+            let leaf = g.add_vertex_with_phase(VType::Z, leaf_phase);
+            g.add_edge_with_type(hub, leaf, EType::H);
+            for &t in &targets { g.add_edge_with_type(hub, t, EType::H); }
+        }
+        g.set_inputs(ins); g.set_outputs(outs);
+        out.push(g);
+    } } }
+    out
+}
 /// every one- and two-spider scalar diagram over the phases k pi/4: colours, wire type, all 8 x 8 phase pairs
 pub fn scalar_pieces() -> Vec<Graph> {
     let mut out = vec![];
@@ -138,6 +158,7 @@ pub fn run(cx: &mut Ctx) {
     let mut r = Rng(0x5eed_c04 ^ seed.wrapping_mul(0x9e3779b97f4a7c15));
     let mut diagrams: Vec<Graph> = (0..ndiag).map(|k| match k % 4 { 2 => star(&mut r), 3 => gadget_farm(&mut r), _ => diagram(&mut r, k % 4 == 1) }).collect();
     diagrams.extend(scalar_pieces());
+    diagrams.extend(gadget_pairs());
     let rules1: Vec<M1> = vec![
         ("pi_copy", |g, v| check_pi_copy(g, v), |g, v| pi_copy(g, v), |g, v| pi_copy_unchecked(g, v)),
         ("remove_id", |g, v| check_remove_id(g, v), |g, v| remove_id(g, v), |g, v| remove_id_unchecked(g, v)),
